@@ -6,7 +6,9 @@ maps, cells of fixed modules, layouts with different numbers of x and y boundari
 Spec on implementation (exact, `fractions.Fraction`): `must_be_refined(t)` ⇔ `refine(t)` changes the cell list (and then
 adds cells); `refine` = exactly the expected halvings in order with depth + levels; `uniform_refinement_depth` leaves
 every refinable cell at the former maximum depth; after `griddify` no refinable cell is crossed by a side line of
-another cell unless the cut would leave a piece thinner than 1% of the cell's other side.  BOUNDARY: a piece of EXACTLY
+another cell unless the cut would leave a piece thinner than 1% of the RESULT cell's other side — in both directions, with no
+excepted region since fixes/C12_griddify_x_before_y.diff (the model's `griddify` is the fixpoint loop; layouts that need
+several rounds are generated on purpose: `gen_cascade_input`) — and a second `griddify` of the result changes nothing.  BOUNDARY: a piece of EXACTLY
 1% of the other side is refused as well (`min(...) > ratio * side` is strict; `FV.Rect.xCuttable` likewise) — checked
 directly on `x_cuttable / y_cuttable` (boundary refused, one ulp inside accepted) and on Q layouts that hit it exactly.
 """
@@ -27,11 +29,16 @@ def spec_steps(ctx: Ctx, inp: dict, steps) -> None:
     for idx, (op, before, after, error) in enumerate(steps):
         if op[0] in ("R", "U", "G", "M"):
             ac.spec_c12_step(ctx, inp, idx, op, before, after, error)
+        elif op[0] in "NILK":
+            ac.spec_accessor(ctx, inp, idx, op, before, after, error)
 
 
 def one(ctx: Ctx, rng, mode: str, pending: list) -> None:
     if mode == "Q" and rng.random() < 0.04:
         inp = ac.gen_boundary_input(rng)          # griddify exactly on the 1 % boundary
+        segs, steps, sqrt_ans = ac.run_impl(inp)
+    elif rng.random() < 0.05:
+        inp = ac.gen_cascade_input(rng, mode)     # griddify needs several rounds of its two sweeps
         segs, steps, sqrt_ans = ac.run_impl(inp)
     else:
         inp = ac.gen_input(rng, mode, FLAVOUR)
